@@ -136,6 +136,7 @@ def isinstance_table(rep, cases, info, res):
 def run(rep):
     rng = random.Random(rep.seed)
     quick = rep.tier == "quick"
+    P.replay_witnesses(rep, PID)
     rep.rule = ("S->I: the MC_Peg 'kinds' universe (root rule over references to a common rule, a two-part match rule, "
                 "an abstract rule with mixed alternatives and a single-match rule) x all inputs of <= 5 symbols; I->S: "
                 "seeded-random grammars of 3-6 rules with chains and guarded cycles of abstract rules. Compared: class "
